@@ -663,8 +663,8 @@ func c01Pop(r *core.Run, a *svcAnchors, e *lockEngine) {
 			}
 			// len == 0 false edge, len != 0 true edge, len > 0 true edge
 			ne := (ci.Op == token.EQL && !truth) || (ci.Op == token.NEQ && truth) || (ci.Op == token.GTR && truth)
-			if ne && s == unk {
-				return nonEmpty, true
+			if ne {
+				return nonEmpty, true // a fresh observation inside the current critical section
 			}
 		}
 		return s, true
@@ -721,6 +721,11 @@ func c01Pop(r *core.Run, a *svcAnchors, e *lockEngine) {
 		}
 	}
 	// drain entered and left Held
+	if a.Drain == a.Worker {
+		// the drain loop is written out in the worker: there is no separate function to enter or leave
+		r.OK("A3", core.FuncName(a.Drain), "entry-and-exit-Held", p.Pos(a.Drain.Pos()), "the drain loop is part of the worker loop; its lock states are judged by L1/L2")
+		return
+	}
 	r.Check(e.entry[a.Drain].Only(lkHeld) && e.exit[a.Drain].Only(lkHeld), "A3", core.FuncName(a.Drain), "entry-and-exit-Held", p.Pos(a.Drain.Pos()),
 		"drain is entered and left with the lock Held (retire happens in the worker's critical section)", "drain entry="+lkStr(e.entry[a.Drain])+" exit="+lkStr(e.exit[a.Drain]))
 }
@@ -909,6 +914,11 @@ func c01Funnel(r *core.Run, a *svcAnchors, root []*ssa.Function) {
 	p := r.P
 	// drain <- workerLoop only
 	for _, c := range callsTo(root, a.Drain) {
+		if a.Drain == a.Worker {
+			// the drain loop is written out in the worker loop; who starts workers is judged by C03.S4
+			r.OK("F1", core.FuncName(c.Parent()), "calls-drain", p.InstrPos(c), "the drain loop is part of the worker loop")
+			continue
+		}
 		r.Check(c.Parent() == a.Worker && !core.IsGo(c), "F1", core.FuncName(c.Parent()), "calls-drain", p.InstrPos(c), "drain is called from the worker loop", "drain is called from outside the worker loop")
 	}
 	// closures stored into Handler fields are handler wrappers (GetModel/GetCollection)
